@@ -78,11 +78,15 @@ fn borrow_method(k: usize, x: usize) -> (String, String) {
     match k {
         0 => ("fn tagline(&self, n: u32) -> &str".to_string(), format!("pub fn tagline(deps: &impl Sized, n: u32) -> &str {{ rt::trace(format!(\"X{x}.TL|{{}}|{{}}\", rt::addr(deps), n)); \"X{x}\" }}\n")),
         1 => ("fn tagline<'a>(&'a self, n: u32) -> &'a str".to_string(), format!("pub fn tagline<'a>(deps: &'a impl Sized, n: u32) -> &'a str {{ rt::trace(format!(\"X{x}.TL|{{}}|{{}}\", rt::addr(deps), n)); \"X{x}\" }}\n")),
+        3 => (
+            "fn tagline<'a>(&'a self, n: u32) -> (&'a str, Option<&str>)".to_string(),
+            format!("pub fn tagline<'a>(deps: &'a impl Sized, n: u32) -> (&'a str, Option<&str>) {{ rt::trace(format!(\"X{x}.TL|{{}}|{{}}\", rt::addr(deps), n)); (\"X{x}\", Some(\"X{x}\")) }}\n"),
+        ),
         _ => ("fn tagline<'a>(&self, s: &'a str) -> &'a str".to_string(), format!("pub fn tagline<'a>(deps: &impl Sized, s: &'a str) -> &'a str {{ rt::trace(format!(\"X{x}.TL|{{}}|{{}}\", rt::addr(deps), s)); s }}\n")),
     }
 }
 
-pub const BORROW_KINDS: [&str; 3] = ["borrow from the receiver (elided lifetime)", "borrow from the receiver (named lifetime)", "borrow from an argument (named lifetime)"];
+pub const BORROW_KINDS: [&str; 4] = ["borrow from the receiver (elided lifetime)", "borrow from the receiver (named lifetime)", "borrow from an argument (named lifetime)", "borrow from the receiver (named lifetime next to an elided one in the output)"];
 
 pub fn gen_case(t: &mut Tape, excl: &[usize]) -> Case {
     let dynamic = t.chance(2, 5);
@@ -112,8 +116,17 @@ pub fn gen_case(t: &mut Tape, excl: &[usize]) -> Case {
         methods[0].is_async = true;
     }
     // an extra method that returns a borrow: from the receiver / the dependency (elided or named lifetime) or from an argument
-    let borrow_kind: Option<usize> = if t.chance(1, 3) { Some(t.choose(3)) } else { None };
+    let borrow_kind: Option<usize> = if t.chance(1, 3) { Some([0, 1, 2, 3, 2][t.choose(5)]) } else { None };
     let borrow_kind = borrow_kind.filter(|k| !excl.contains(k));
+    // static selection: a method with type / const parameters of its own (one inferable from an argument, one not),
+    // and a method that takes `self` by value (the block's fn takes its dependency by value)
+    let gen_method: Option<bool> = if !dynamic && t.chance(1, 4) { Some(t.flip()) } else { None }; // Some(named deps parameter)
+    let byval_method: Option<bool> = if !dynamic && t.chance(1, 5) { Some(any_async && t.flip()) } else { None }; // Some(async)
+    // the first fn of every block has a disabled alternative; the `cfg`s are not the first attribute of the fns
+    let cfg_alt = t.chance(1, 5);
+    // a method with a default body and non-identifier parameter patterns: through `Impl<T>` the selected block answers, not
+    // the default body; the body-less copy in the delegation-target trait cannot keep the patterns
+    let dflt_pat = t.chance(1, 5);
     // a `&mut self` method next to the `&self` ones (static selection: the block's fn still takes `&impl Deps`)
     let mut_method = !dynamic && t.chance(1, 4);
     let n_targets = t.range(2, 3);
@@ -163,6 +176,15 @@ pub fn gen_case(t: &mut Tape, excl: &[usize]) -> Case {
     if mut_method {
         src.push_str("    fn record(&mut self, level: u8, line: &str) -> String;\n");
     }
+    if gen_method.is_some() {
+        src.push_str("    fn convert<W: ::core::fmt::Debug + Default, const K: usize>(&self, w: W) -> String;\n");
+    }
+    if dflt_pat {
+        src.push_str("    fn combine(&self, (a, b): (i32, i32), N(c): N, mut d: i32) -> String { d += 1; format!(\"DEFAULT|{},{},{},{}\", a, b, c, d) }\n");
+    }
+    if let Some(a) = byval_method {
+        src.push_str(&format!("    {}fn consume(self, x: i32) -> String;\n", if a { "async " } else { "" }));
+    }
     src.push_str("}\n");
     if let Some((mi, i, _)) = hygiene_trait {
         src.push_str(&format!("}} }}\n__mk_tr!({});\n", methods[mi].params[i].name));
@@ -183,7 +205,10 @@ pub fn gen_case(t: &mut Tape, excl: &[usize]) -> Case {
             src.push_str(&format!("/*GEN*/ {at_attr}\n"));
         }
         src.push_str(&format!("/*GEN*/ impl TrImpl for X{x} {{\n/*TWIN*/ impl X{x} {{\n"));
-        for m in &block_methods {
+        for (bi, m) in block_methods.iter().enumerate() {
+            if cfg_alt && bi == 0 {
+                src.push_str(&format!("    /// the other configuration\n    #[inline]\n    #[cfg(any())]\n    pub fn {}(deps: &impl Sized) -> NoSuchType {{ NoSuchType }}\n    /// this configuration\n    #[inline]\n    #[cfg(all())]\n", m.name));
+            }
             let nd = t.weighted(&[3, 3, 2, 1, 1]);
             let mut deps = vec![];
             for _ in 0..nd {
@@ -201,6 +226,17 @@ pub fn gen_case(t: &mut Tape, excl: &[usize]) -> Case {
         }
         if mut_method {
             src.push_str(&format!("    pub fn record(deps: &impl Sized, level: u8, line: &str) -> String {{ let __r = format!(\"X{x}.REC|{{}}|{{}},{{}}\", rt::addr(deps), level, line); rt::trace(__r.clone()); __r }}\n"));
+        }
+        if let Some(named) = gen_method {
+            let (g, d) = if named { ("<W: ::core::fmt::Debug + Default, D, const K: usize>", "&D") } else { ("<W: ::core::fmt::Debug + Default, const K: usize>", "&impl Sized") };
+            src.push_str(&format!("    pub fn convert{g}(deps: {d}, w: W) -> String {{ let __r = format!(\"X{x}.CV|{{}}|{{:?}}|{{:?}}|{{}}\", rt::addr(deps), w, W::default(), K); rt::trace(__r.clone()); __r }}\n"));
+        }
+        if dflt_pat {
+            src.push_str(&format!("    pub fn combine(deps: &impl Sized, (a, b): (i32, i32), N(c): N, d: i32) -> String {{ let __r = format!(\"X{x}.CB|{{}}|{{}},{{}},{{}},{{}}\", rt::addr(deps), a, b, c, d); rt::trace(__r.clone()); __r }}\n"));
+        }
+        if let Some(a) = byval_method {
+            let (q, y) = if a { ("async ", "rt::yield_once().await; ") } else { ("", "") };
+            src.push_str(&format!("    pub {q}fn consume<D>(deps: D, x: i32) -> String {{ {y}let __r = format!(\"X{x}.CS|{{}}\", x); rt::trace(__r.clone()); __r }}\n"));
         }
         src.push_str("}\n");
         if let (Some((mi, i, _)), 0) = (hygiene_block, x) {
@@ -254,8 +290,8 @@ pub fn gen_case(t: &mut Tape, excl: &[usize]) -> Case {
         for a in 0..n_apps {
             let arg = if k == 2 { "\"arg\"" } else { "77" };
             src.push_str("    {\n        let _ = rt::take();\n");
-            src.push_str(&format!("        let direct = X{a}::tagline(&app{a}, {arg}).to_string();\n        let t_direct = rt::take();\n"));
-            src.push_str(&format!("/*GEN*/ let via = Tr::tagline(&app{a}, {arg}).to_string();\n        let t_via = rt::take();\n"));
+            src.push_str(&format!("        let direct = format!(\"{{:?}}\", X{a}::tagline(&app{a}, {arg}));\n        let t_direct = rt::take();\n"));
+            src.push_str(&format!("/*GEN*/ let via = format!(\"{{:?}}\", Tr::tagline(&app{a}, {arg}));\n        let t_via = rt::take();\n"));
             src.push_str(&format!("/*GEN*/ rt::expect_eq(&mut fails, \"app{a} borrowed-return method: result through Impl<A{a}> vs X{a}::tagline\", &via, &direct);\n"));
             src.push_str(&format!("/*GEN*/ rt::expect_eq(&mut fails, \"app{a} borrowed-return method: call trace\", &t_via, &t_direct);\n"));
             src.push_str("    }\n");
@@ -268,6 +304,41 @@ pub fn gen_case(t: &mut Tape, excl: &[usize]) -> Case {
             src.push_str("/*GEN*/ let via = Tr::record(&mut mapp, 3, \"ln\");\n        let t_via = rt::take();\n");
             src.push_str(&format!("/*GEN*/ rt::expect_eq(&mut fails, \"app{a} `&mut self` method: result through Impl<A{a}> vs X{a}::record\", &via, &direct);\n"));
             src.push_str(&format!("/*GEN*/ rt::expect_eq(&mut fails, \"app{a} `&mut self` method: call trace\", &t_via, &t_direct);\n"));
+            src.push_str("    }\n");
+        }
+    }
+    if let Some(named) = gen_method {
+        for a in 0..n_apps {
+            let tf = if named { "::<(u8, bool), _, 4>" } else { "::<(u8, bool), 4>" };
+            src.push_str("    {\n        let _ = rt::take();\n");
+            src.push_str(&format!("        let direct = X{a}::convert{tf}(&app{a}, (9u8, true));\n        let t_direct = rt::take();\n"));
+            src.push_str(&format!("/*GEN*/ let via = Tr::convert::<(u8, bool), 4>(&app{a}, (9u8, true));\n        let t_via = rt::take();\n"));
+            src.push_str(&format!("/*GEN*/ rt::expect_eq(&mut fails, \"app{a} method with type / const parameters: result through Impl<A{a}> vs X{a}::convert\", &via, &direct);\n"));
+            src.push_str(&format!("/*GEN*/ rt::expect_eq(&mut fails, \"app{a} method with type / const parameters: call trace\", &t_via, &t_direct);\n"));
+            src.push_str("        if t_direct.len() != 1 { fails.push(format!(\"HARNESS: convert traced {} entries\", t_direct.len())); }\n");
+            src.push_str("    }\n");
+        }
+    }
+    if dflt_pat {
+        for a in 0..n_apps {
+            src.push_str("    {\n        let _ = rt::take();\n");
+            src.push_str(&format!("        let direct = X{a}::combine(&app{a}, (1, 2), N(3), 4);\n        let t_direct = rt::take();\n"));
+            src.push_str(&format!("/*GEN*/ let via = Tr::combine(&app{a}, (1, 2), N(3), 4);\n        let t_via = rt::take();\n"));
+            src.push_str(&format!("/*GEN*/ rt::expect_eq(&mut fails, \"app{a} defaulted method with parameter patterns: result through Impl<A{a}> vs X{a}::combine\", &via, &direct);\n"));
+            src.push_str(&format!("/*GEN*/ rt::expect_eq(&mut fails, \"app{a} defaulted method with parameter patterns: call trace\", &t_via, &t_direct);\n"));
+            src.push_str("        if t_direct.len() != 1 { fails.push(format!(\"HARNESS: combine traced {} entries\", t_direct.len())); }\n");
+            src.push_str("    }\n");
+        }
+    }
+    if let Some(asy) = byval_method {
+        for a in 0..n_apps {
+            let wrap = |e: String| if asy { format!("rt::block_on({e})") } else { e };
+            src.push_str("    {\n        let _ = rt::take();\n");
+            src.push_str(&format!("        let direct = {};\n        let t_direct = rt::take();\n", wrap(format!("X{a}::consume(::entrait::Impl::new(mk_a{a}()), 21)"))));
+            src.push_str(&format!("/*GEN*/ let via = {};\n        let t_via = rt::take();\n", wrap(format!("Tr::consume(::entrait::Impl::new(mk_a{a}()), 21)"))));
+            src.push_str(&format!("/*GEN*/ rt::expect_eq(&mut fails, \"app{a} by-value method: result through Impl<A{a}> vs X{a}::consume\", &via, &direct);\n"));
+            src.push_str(&format!("/*GEN*/ rt::expect_eq(&mut fails, \"app{a} by-value method: call trace\", &t_via, &t_direct);\n"));
+            src.push_str("        if t_direct.len() != 1 { fails.push(format!(\"HARNESS: consume traced {} entries\", t_direct.len())); }\n");
             src.push_str("    }\n");
         }
     }
@@ -306,14 +377,42 @@ pub fn gen_case(t: &mut Tape, excl: &[usize]) -> Case {
         classes.push("block_from_macro_rules_with_same_spelled_parameters");
     }
     if let Some(k) = borrow_kind {
-        classes.push(["borrowed_return:receiver_elided", "borrowed_return:receiver_named", "borrowed_return:argument_named"][k]);
+        classes.push(["borrowed_return:receiver_elided", "borrowed_return:receiver_named", "borrowed_return:argument_named", "borrowed_return:receiver_named_and_elided"][k]);
+    }
+    if gen_method.is_some() {
+        classes.push("method_with_type_and_const_parameters");
+    }
+    if byval_method.is_some() {
+        classes.push("by_value_self_method");
+    }
+    if cfg_alt {
+        classes.push("cfg_alternatives_in_blocks_after_other_attributes");
+    }
+    if dflt_pat {
+        classes.push("defaulted_method_with_parameter_patterns");
+    }
+    let mut extras: Vec<String> = vec![];
+    if let Some(k) = borrow_kind {
+        extras.push(borrow_method(k, 0).0);
+    }
+    if gen_method.is_some() {
+        extras.push("fn convert<W: Debug + Default, const K: usize>(&self, w: W) -> String".into());
+    }
+    if let Some(a) = byval_method {
+        extras.push(format!("{}fn consume(self, x: i32) -> String", if a { "async " } else { "" }));
+    }
+    if dflt_pat {
+        extras.push("fn combine(&self, (a, b): (i32, i32), N(c): N, mut d: i32) -> String { .. }".into());
+    }
+    if cfg_alt {
+        extras.push("[each block has a `/// doc #[inline] #[cfg(any())]` alternative of its first fn]".into());
     }
     let real: String = src.lines().filter(|l| !l.starts_with("/*TWIN*/")).collect::<Vec<_>>().join("\n");
     let twin: String = src.lines().filter(|l| !l.starts_with("/*GEN*/")).collect::<Vec<_>>().join("\n");
     let summary = format!(
         "#[entrait({trait_attr})] {}trait Tr {{ {} }} with {n_targets} competing `#[entrait{}] impl TrImpl for X_k` blocks",
         at.trim(),
-        methods.iter().map(trait_sig).collect::<Vec<_>>().join("; "),
+        methods.iter().map(trait_sig).chain(extras.iter().cloned()).collect::<Vec<_>>().join("; "),
         if dynamic { "(ref)" } else { "" }
     );
     Case { src: real, twin, summary, nontrivial: methods.len() >= 2 || same_typed || max_deps > 0, classes }
